@@ -25,6 +25,9 @@ pub struct ChunkedChars<R: Read> {
     /// Set by [`Utf16TailGuard`] when the raw input is UTF-16 and is transcoded on the fly:
     /// the cap then counts the bytes of the raw input, not of its UTF-8 transcription.
     source_is_utf16: Rc<Cell<bool>>,
+    /// Set by [`Utf16TailGuard`] when the raw input starts with a UTF-8 byte-order mark: the
+    /// decoder strips it, the cap charges its three bytes with the first character.
+    source_has_utf8_bom: Rc<Cell<bool>>,
     /// The underlying reader that already yields UTF-8 bytes (typically a
     /// `BufReader<DecodeReaderBytes<...>>`). It is read incrementally.
     reader: R,
@@ -53,6 +56,7 @@ impl<R: Read> ChunkedChars<R> {
             max_bytes,
             total_bytes: 0,
             source_is_utf16: Rc::new(Cell::new(false)),
+            source_has_utf8_bom: Rc::new(Cell::new(false)),
             reader,
             err,
             done: false,
@@ -166,6 +170,8 @@ impl<R: Read> ChunkedChars<R> {
         let add = if self.source_is_utf16.get() {
             let bom = if self.total_bytes == 0 { 2 } else { 0 };
             bom + if needed == 4 { 4 } else { 2 }
+        } else if self.total_bytes == 0 && self.source_has_utf8_bom.get() {
+            3 + needed
         } else {
             needed
         };
@@ -299,13 +305,19 @@ struct Utf16TailGuard<R> {
     pending_high: bool,
     /// Shared with `ChunkedChars`: set as soon as the stream is known to be UTF-16.
     source_is_utf16: Rc<Cell<bool>>,
+    /// The first two bytes were `EF BB`: the third decides whether this is a UTF-8 mark.
+    maybe_utf8_bom: bool,
+    /// Shared with `ChunkedChars`: the stream starts with a UTF-8 byte-order mark.
+    source_has_utf8_bom: Rc<Cell<bool>>,
 }
 
 impl<R: Read> Utf16TailGuard<R> {
-    fn new(inner: R, source_is_utf16: Rc<Cell<bool>>) -> Self {
+    fn new(inner: R, source_is_utf16: Rc<Cell<bool>>, source_has_utf8_bom: Rc<Cell<bool>>) -> Self {
         Self {
             inner,
             source_is_utf16,
+            maybe_utf8_bom: false,
+            source_has_utf8_bom,
             head: [0; 2],
             head_len: 0,
             utf16: None,
@@ -326,10 +338,15 @@ impl<R: Read> Utf16TailGuard<R> {
                         _ => None,
                     };
                     self.source_is_utf16.set(self.utf16.is_some());
+                    self.maybe_utf8_bom = self.head == [0xEF, 0xBB];
                 }
                 continue;
             }
             let Some(big_endian) = self.utf16 else {
+                if self.maybe_utf8_bom {
+                    self.maybe_utf8_bom = false;
+                    self.source_has_utf8_bom.set(b == 0xBF);
+                }
                 return;
             };
             match self.half.take() {
@@ -360,7 +377,7 @@ impl<R: Read> Read for Utf16TailGuard<R> {
             }
             return Ok(0);
         }
-        if self.head_len < 2 || self.utf16.is_some() {
+        if self.head_len < 2 || self.utf16.is_some() || self.maybe_utf8_bom {
             self.observe(&buf[..n]);
         }
         Ok(n)
@@ -374,6 +391,7 @@ pub fn buffered_input_from_reader_with_limit<'a, R: Read + 'a>(
     max_bytes: Option<usize>,
 ) -> (ReaderInput<'a>, ReaderInputError) {
     let source_is_utf16 = Rc::new(Cell::new(false));
+    let source_has_utf8_bom = Rc::new(Cell::new(false));
     // Auto-detect encoding (BOM or guess), decode to UTF-8 on the fly.
     let decoder = DecodeReaderBytesBuilder::new()
         .encoding(None) // None = sniff BOM / use heuristics; set Some(encoding) to force
@@ -381,13 +399,18 @@ pub fn buffered_input_from_reader_with_limit<'a, R: Read + 'a>(
         // truncated UTF-8 is reported by `ChunkedChars` instead of being replaced with U+FFFD.
         .utf8_passthru(true)
         .strip_bom(true)
-        .build(Utf16TailGuard::new(reader, source_is_utf16.clone()));
+        .build(Utf16TailGuard::new(
+            reader,
+            source_is_utf16.clone(),
+            source_has_utf8_bom.clone(),
+        ));
 
     let error: ReaderInputError = Rc::new(RefCell::new(None));
 
     let br = BufReader::new(Box::new(decoder) as DynReader<'a>);
     let mut char_iter = ChunkedChars::new(br, max_bytes, error.clone());
     char_iter.source_is_utf16 = source_is_utf16;
+    char_iter.source_has_utf8_bom = source_has_utf8_bom;
 
     (BufferedInput::new(char_iter), error)
 }
